@@ -994,6 +994,31 @@ example : (solve (toy false) #[30, 5, 0] []).status = .timeout ∧ (solve (toy f
     (solve (toy false) #[30, 5] toyScript).status = .invalidStart ∧
     (solve (toy false) #[30, 5] toyScript).added = none := by decide
 
+/-! ### F310: a goal state handed out by a DIRECT `sampleGoal` is not filtered
+
+`rrt_inbounds` needs every draw — goal draws included — to satisfy the bounds.  For the goal draws nothing in
+`RRT::solve` establishes that: `goal_s->sampleGoal(rstate)` is called directly, not through
+`PlannerInputStates::nextGoal` (whose `satisfiesBounds` / `isValid` filter `nextGoal_valid` is about), and the extension
+is only gated by `checkMotion`, i.e. by the USER's validity checker, which need not look at the bounds.  The witness:
+bounds `s ≤ 20`, a validity checker and motion validator that only know the obstacle `5`, a goal state `26` (threshold
+1), range 10, three goal draws.  Every sampler draw (there is none) is in bounds, the planner answers EXACT_SOLUTION, and
+the reported path `[0, 10, 20, 26]` ends outside the bounds.  Replayed on the real code by the `bounds-blind:outside-goal`
+class of checks/c01.py (18 planners share the direct call). -/
+
+def toyOutside : Cfg Nat Nat :=
+  { toy false with maxDistance := 10, goalDist := fun s => if s < 26 then 26 - s else s - 26 }
+
+theorem rrt_unfiltered_goal_draw_fails :
+    ∃ (cfg : Cfg Nat Nat) (starts : Array Nat) (script : List (Draw Nat)),
+      (∀ dr ∈ script, dr.fromGoal = false → cfg.bounds dr.state = true) ∧
+      (∀ s ∈ starts.toList, cfg.bounds s = true) ∧
+      (solve cfg starts script).status = .exactSolution ∧
+      ∃ path approx dif, (solve cfg starts script).added = some (path, approx, dif) ∧
+        ∃ s ∈ path, cfg.bounds s = false :=
+  ⟨toyOutside, #[0], [⟨true, 26⟩, ⟨true, 26⟩, ⟨true, 26⟩], by decide, by decide, by decide,
+    [0, 10, 20, 26], false, 0, by decide, 26, by decide, by decide⟩
+
+
 /-! ### non-vacuity for RRTConnect: the same toy world, goal sample `goal`, connect loop bounded by `fuel` -/
 
 def toyC (interm : Bool) (goal fuel : Nat) : RRTConnect.Cfg Nat Nat where
